@@ -4,6 +4,7 @@
    exercised by the harness (harness/props/c16.py), which hands the table parsed by the real
    get_hlog_fields() to the model. *)
 From Coq Require Import List NArith Bool Arith.
+From PV Require Gen.Regexes Spec.PublishedRegexes Model.StreamProg Gen.Readers Proofs.ReaderLoopFacts.
 From PV Require Import Base.Bytes Base.Lit Model.Hexdump Model.Hlog Spec.IoDrawer
                        Proofs.HexdumpRoundtrip Proofs.HlogFacts.
 Import ListNotations.
@@ -44,6 +45,26 @@ Print Assumptions C16_dump_lossless.
 Theorem C16_zero_width : forall name t d, parse_hlog ((name, 0%nat) :: t) d = None.
 Proof. exact hlog_zero_width. Qed.
 Print Assumptions C16_zero_width.
+
+
+(* the history-log table grammar is the published one *)
+Theorem C16_source_table_grammar :
+  Gen.Regexes.re_HLOG_START_RE = Spec.PublishedRegexes.re_HLOG_START_RE /\
+  Gen.Regexes.re_HLOG_FIELD_RE = Spec.PublishedRegexes.re_HLOG_FIELD_RE /\
+  Gen.Regexes.re_HLOG_END_RE = Spec.PublishedRegexes.re_HLOG_END_RE.
+Proof. repeat split; reflexivity. Qed.
+Print Assumptions C16_source_table_grammar.
+
+(* SOURCE-TEXT tie of the field loop.  harness/extract_readers.py translates the stream statements of the body of
+   `for field in fields` in parse_hlog_data (the range check with `break`, the read of field.size bytes) into the reader language
+   of Model/StreamProg.v (Gen/Readers.v, regenerated every run).  One unrolling of the model's loop IS one run of the translated
+   body started with field.size bound to the declared size, for every field list and byte string: `break` ends the display,
+   a DataStream assertion (declared size 0) is the model's failure, and otherwise the value shown is the integer the translated
+   body has read and the next field starts on the bytes it has left. *)
+Theorem C16_source_field_loop : forall name size t d,
+  hlog_loop ((name, size) :: t) d = ReaderLoopFacts.hlog_step name size t d.
+Proof. exact ReaderLoopFacts.hlog_body_correct. Qed.
+Print Assumptions C16_source_field_loop.
 
 (* non-vacuity: the second field does not fit, the first is shown; a zero field is not shown *)
 Example C16_example :
